@@ -129,8 +129,28 @@ class Dispatch:
         out = []
         for d, vals, excl, s2, tg in df(b2, ex2, bb):
             if s2 in self.loop and len(b2.succ.get(s2, [])) > 1:
+                # a test made before any command word is looked at whose other outcome ends the
+                # process (end of input) is not a condition on the command: there is no command then
+                pre = all(s2 == ts or b2.node_dominates(s2, ts) for ts in self.words.values() if ts in b2.reachable)
+                if pre and all(y == tg or exits_process(b2, y) for y in b2.succ.get(s2, [])):
+                    continue
                 out.append(d)
         return out
+
+    def after_dispatch(self, word):
+        """Blocks an iteration can reach once the word is known: the arm region and everything
+        downstream of it up to the loop header (not the part that reads and splits the line)."""
+        b2, _ = self.spec(word)
+        seen, st = set(), list(self.region(word))
+        while st:
+            x = st.pop()
+            if x in seen:
+                continue
+            seen.add(x)
+            for y in b2.succ.get(x, []):
+                if y != self.h:
+                    st.append(y)
+        return seen
 
 
 def dispatch(f, b, ex, h, loop):
@@ -254,10 +274,13 @@ def r16_1(ctx):
     statics = f.d["statics"]
     for s in statics:
         ok = (not s["mutable"]) and s["freeze"] and (not s["thread_local"])
-        alloc = "MiMalloc" in s["ty"] or "alloc" in s["ty"].lower()
-        ctx.ob("static:%s" % s["name"], ok and alloc, "%s:%d" % (s["span"]["file"], s["span"]["line"]),
-               "static `%s: %s` (mutable=%s, interior mutability=%s, thread_local=%s); the only static allowed is the immutable global allocator" % (
-                   s["name"], s["ty"], s["mutable"], not s["freeze"], s["thread_local"]))
+        # an immutable static of a Freeze type is as good as a const.  Freeze does not look through
+        # references / raw pointers, so a type that reaches shared-mutable storage that way is refused
+        ty = s["ty"]
+        indirect = "*mut" in ty or "*const" in ty or ("&" in ty and any(w in ty for w in ("Cell", "Atomic", "Mutex", "RwLock", "Once", "Lazy", "Condvar", "mpsc", "Rc<", "Arc<")))
+        ctx.ob("static:%s" % s["name"], ok and not indirect, "%s:%d" % (s["span"]["file"], s["span"]["line"]),
+               "static `%s: %s` (mutable=%s, interior mutability=%s, thread_local=%s, reaches shared-mutable storage through a pointer=%s); only immutable statics of plain data are allowed" % (
+                   s["name"], s["ty"], s["mutable"], not s["freeze"], s["thread_local"], indirect))
     ctx.floor("statics seen (the allocator is the positive control)", len(statics), 1)
     # no body refers to a static other than those
     names = {s["name"] for s in statics if (not s["mutable"]) and s["freeze"] and (not s["thread_local"])}
@@ -664,3 +687,62 @@ def r17_7(ctx):
                "read_line on `%s`%s" % (base, "" if ok else ": an adaptor between stdin and read_line can end a read in the middle of a line, and the remainder is then dispatched as a command of its own"))
     if n == 0:
         raise AnchorMissing("no read_line call in %s" % READ)
+
+
+SHARED_MUT = ("std::sync::mpsc::", "std::cell::", "std::sync::Mutex", "std::sync::RwLock", "std::sync::atomic::",
+              "std::rc::Rc<", "std::sync::Arc<", "std::sync::OnceLock", "std::sync::LazyLock")
+
+
+def r16_6(ctx):
+    """Nothing with shared-mutable content survives from one command to the next: (a) no value created
+    before the command loop and used inside it has a type that can carry state behind a shared reference
+    (a channel endpoint, a cell, a lock, an atomic, a reference-counted pointer) - R16.2 sees only locals
+    that are *assigned* in the loop; (b) the channel the go handler reads the search's moves from is created
+    inside that handler, so what an earlier search queued can never be read as the answer to this `go`."""
+    from wa.expr import data_slice
+    f = ctx.facts
+    b = f.body(LOOP_FN)
+    ctx.note_fn(LOOP_FN)
+    ex = Exprs(b)
+    h, loop = command_loop(b, ex)
+    n = 0
+    for l in sorted(b.names):
+        ty = b.local_ty(l)
+        if not any(s_ in ty for s_ in SHARED_MUT):
+            continue
+        sites = [loc for loc, k in b.reaching().all_sites(l) if k == "whole"]
+        outside = [loc for loc in sites if loc[0] not in loop]
+        if not outside:
+            continue
+        used = False
+        import json as _j
+        pat = '"local": %d' % l
+        for bb in loop:
+            if bb not in b.reachable:
+                continue
+            if pat + "," in _j.dumps(b.blocks[bb]["stmts"]) + _j.dumps(b.blocks[bb]["term"]) or pat + "}" in _j.dumps(b.blocks[bb]["stmts"]) + _j.dumps(b.blocks[bb]["term"]):
+                used = True
+                break
+        n += 1
+        ctx.ob("play_game_uci:session-object:%s" % b.names[l], not used, b.where(outside[0]),
+               "`%s: %s` is created before the command loop %s" % (b.names[l], ty[:60], "and used inside it: its content survives from one command to the next (a move queued for an earlier `go` answers a later one)" if used else "but not used inside it"))
+    # (b) receiver origin in the go handler
+    g = f.body("uci::find_and_play_best_move")
+    ctx.note_fn("uci::find_and_play_best_move")
+    gx = Exprs(g)
+    nr = 0
+    for bb, t in g.iter_calls():
+        c = callee_of(t) or ""
+        if "std::sync::mpsc::Receiver" not in c:
+            continue
+        args = gx.call_args(bb)
+        if not args:
+            continue
+        nr += 1
+        sl = list(data_slice(gx, args[0]))
+        fresh = any(x[0] == "call" and x[1].startswith("std::sync::mpsc::") and x[1].split("<")[0].endswith("channel") for x in sl)
+        from_param = any(x[0] == "arg" for x in sl)
+        ctx.ob("find_and_play_best_move:%s:channel-per-go" % c.split("::")[-1], fresh and not from_param, g.where(g.term_loc(bb)),
+               "the receiver read by `%s` %s" % (g.text_at(g.term_loc(bb))[:60], "comes from a channel created in this handler" if fresh and not from_param else
+                                                   "is not created in this handler: it outlives the `go`, and whatever an earlier search sent late is still queued in it"))
+    ctx.floor("receiver reads in the go handler", nr, 1)
